@@ -91,6 +91,11 @@ TEXT = {
   level_text="Generated mixes of connection outcomes (completed relays, probes, replays, reflected salts, bad addresses, connect failures, resets on either side, corrupt chunks) run concurrently through the real TCP service; for each connection the recorded TCPConnMetrics call sequence and the four byte counters are compared with what the raw client and target sockets measured, and the real Prometheus collector's counters with the call log.",
   level_note="Authentication expectations come from the scenario construction with an independent codec; reset outcomes admit a set of statuses.",
  ),
+ "C18": dict(
+  technique="grammar-based property testing (rapid) of hostile TCP/UDP inputs with journalled cases, liveness canaries and resource accounting; native fuzzing of the two decoders in the thorough tier",
+  level_text="Generated hostile inputs (malformed SOCKS headers inside authenticated plaintext, hostile chunk framing, raw bytes, replies of every size from every local source class, generated termination orders and listener shutdowns) are driven through the real TCP and UDP services; the process must survive (cases are journalled first), no panic may be recovered, well-formed traffic must still be served, serving must stop only after all handlers returned, and goroutines and sockets must return to the baseline.",
+  level_note="Only local destinations are generated; 'gone' means within 4 s; coverage-guided fuzzing runs only in the thorough tier.",
+ ),
 }
 def _na():
     from checks_table import CHECKS
